@@ -2,7 +2,7 @@
    conditions hold of the code's own struct types, and the hypotheses are satisfiable by non-trivial values. *)
 From Coq Require Import List NArith ZArith Lia Bool Arith.
 From TarsV Require Import Gen.Consts Base.Hex Codec.Wire Codec.Skip Codec.Prim Codec.GenCodec Codec.Corr
-  Codec.RoundTrip Codec.RoundTripProofs Gen.Schemas.
+  Codec.RoundTrip Codec.RoundTripProofs Codec.TotalProofs Gen.Schemas.
 Import ListNotations.
 Open Scope N_scope.
 
@@ -99,3 +99,17 @@ Example inner2_extras :
   = DOk (VStruct inner2) (ser_fields junk_z)
   /\ decode env0 sid_verifidl_Inner (encode env0 sid_verifidl_Inner (VStruct inner2)) = DOk (VStruct inner2) [].
 Proof. vm_compute. split; reflexivity. Qed.
+
+(* C05 on the code's schemas: the model's fuel never runs out on any bytes for every generated struct type with
+   a finite type graph; the 21 struct types without vector/array members decode any bytes to a value or an error *)
+Theorem env0_fuel : forall sid prior bs, tfin 8 env0 (TStruct sid) = true -> decode_into env0 sid prior bs <> DFuel.
+Proof. intros sid prior bs Hfin. apply (decode_fuel env0 8); [assumption|]. pose proof (env0_static sid Hfin). lia. Qed.
+Theorem env0_total : forall sid prior bs, safe_ty 8 env0 (TStruct sid) = true -> total_out (decode_into env0 sid prior bs).
+Proof.
+  intros sid prior bs Hs. apply (decode_total env0 8); [assumption|].
+  pose proof (env0_static sid (safe_tfin env0 8 _ Hs)). lia.
+Qed.
+Example env0_safe_types :
+  filter (fun sid => safe_ty 8 env0 (TStruct sid)) (seq 0 (length env0))
+  = [0; 1; 2; 3; 4; 5; 6; 8; 9; 10; 11; 12; 13; 14; 15; 17; 20; 21; 22; 23; 27]%nat.
+Proof. vm_compute. reflexivity. Qed.
